@@ -160,6 +160,27 @@ def mIncrefAll : List Int → MM Unit
 
 /-! ### `find_or_add` -/
 
+/-- the second half of `find_or_add`: look the canonical tuple `(i, *nodes)` up in `_pred`,
+else allocate a number and add the node -/
+def mFindOrMake (i : Nat) (nodes : List Int) : MM Nat := fun m =>
+  let t : MNd := ⟨i, nodes⟩
+  -- already exists ?
+  match m.pred[t.key]? with
+  | some u => (.ok u, m)
+  | none =>
+    match mAllocate m with
+    | (.error e, m1) => (.error e, m1)
+    | (.ok u, m1) =>
+      -- `if u in self: raise AssertionError`
+      if m1.mem u then (.error .assertion, m1) else
+      let m2 : MddMgr := { m1 with
+        tbl := { m1.tbl with succ := m1.tbl.succ.insert u t }
+        pred := m1.pred.insert t.key u
+        ref := m1.ref.insert u 0 }
+      match mIncrefAll nodes m2 with
+      | (.error e, m3) => (.error e, m3)
+      | (.ok _, m3) => (.ok u, m3)
+
 /-- `find_or_add(i, *nodes)` for a level already known to be a natural number -/
 def mFindOrAddCore (i : Nat) (nodes : List Int) : MM Int := fun m =>
   -- `if not (0 <= i < len(self.vars))`
@@ -172,31 +193,22 @@ def mFindOrAddCore (i : Nat) (nodes : List Int) : MM Int := fun m =>
   if nodes.length ≠ var.len then (.error .value, m) else
   match nodes with
   | [] => (.error .value, m)          -- `if not nodes`
-  | n0 :: _ =>
+  | n0 :: tl =>
   -- `for u in nodes: if abs(u) not in self`
-  if !nodes.all m.mem then (.error .value, m) else
+  if !(n0 :: tl).all m.mem then (.error .value, m) else
   -- canonicity of complemented edges
-  let r : Int := if n0 < 0 then -1 else 1
-  let nodes' : List Int := if n0 < 0 then nodes.map (fun u => -u) else nodes
-  let h0 : Int := if n0 < 0 then -n0 else n0
-  -- eliminate: `len(set(nodes)) == 1`
-  if nodes'.all (fun u => u == h0) then (.ok (r * h0), m) else
-  let t : MNd := ⟨i, nodes'⟩
-  match m.pred[t.key]? with
-  | some u => (.ok (r * (u : Int)), m)
-  | none =>
-    match mAllocate m with
+  if n0 < 0 then
+    let nodes' : List Int := (n0 :: tl).map (fun u => -u)
+    -- eliminate: `len(set(nodes)) == 1`
+    if nodes'.all (fun u => u == -n0) then (.ok (-1 * -n0), m) else
+    match mFindOrMake i nodes' m with
     | (.error e, m1) => (.error e, m1)
-    | (.ok u, m1) =>
-      -- `if u in self: raise AssertionError`
-      if m1.mem u then (.error .assertion, m1) else
-      let m2 : MddMgr := { m1 with
-        tbl := { m1.tbl with succ := m1.tbl.succ.insert u t }
-        pred := m1.pred.insert t.key u
-        ref := m1.ref.insert u 0 }
-      match mIncrefAll nodes' m2 with
-      | (.error e, m3) => (.error e, m3)
-      | (.ok _, m3) => (.ok (r * (u : Int)), m3)
+    | (.ok u, m1) => (.ok (-1 * (u : Int)), m1)
+  else
+    if (n0 :: tl).all (fun u => u == n0) then (.ok (1 * n0), m) else
+    match mFindOrMake i (n0 :: tl) m with
+    | (.error e, m1) => (.error e, m1)
+    | (.ok u, m1) => (.ok (1 * (u : Int)), m1)
 
 /-- `find_or_add(i, *nodes)` for a level given as a Python int -/
 def mFindOrAdd (i : Int) (nodes : List Int) : MM Int := fun m =>
